@@ -60,10 +60,15 @@ NRanges == Len(Flatten(hdr))
 AddRange == /\ mode = "syn" /\ NRanges < MaxSynRanges
             /\ \E r \in SynPool :
                  \/ hdr' = Append(hdr, <<r>>)                                            \* new header line
-                 \/ hdr # <<>> /\ hdr' = [hdr EXCEPT ![Len(hdr)] = Append(@, r)]        \* same line
+                 \/ hdr # <<>> /\ hdr[Len(hdr)] # <<>> /\ hdr' = [hdr EXCEPT ![Len(hdr)] = Append(@, r)]   \* same line
             /\ UNCHANGED <<mode, specs, offers>>
 
-Next == ChooseMode \/ AddSpec \/ AddOffer \/ AddRange
+\* a header line without ranges, at any position
+AddBlankLine == /\ mode = "syn" /\ Len(hdr) < MaxSynRanges + 1 /\ NRanges < MaxSynRanges
+                /\ hdr' = Append(hdr, <<>>)
+                /\ UNCHANGED <<mode, specs, offers>>
+
+Next == ChooseMode \/ AddSpec \/ AddOffer \/ AddRange \/ AddBlankLine
 Spec == Init /\ [][Next]_vars
 
 \* ---- invariants -----------------------------------------------------------
